@@ -377,3 +377,257 @@ class ReadElementStatusDecode(ListDecode):
 
 for _u in (GetLbaStatusDecode(), ReportLunsDecode(), PRInReadKeysDecode(), RtpgDecode(), ReadElementStatusDecode()):
     UNITS.append(register(_u))
+
+
+class ReportPriorityDecode(ListDecode):
+    name = "decode/ReportPriority"
+    bound_note = "0..3 descriptors (quick) with TransportIDs of 0 / 24 bytes; all field values symbolic"
+
+    def parser(self):
+        return cls_of("scsi_cdb_report_priority", "ReportPriority").unmarshall_datain
+
+    def cases(self, tier):
+        shapes = [(), (0,), (24,), (24, 0), (0, 24, 24)]
+        return [{"tids": list(s), "tail": t} for s in shapes for t in ("none", "unused-buffer-space")]
+
+    def case_id(self, case):
+        return "tids=%s,tail=%s" % ("-".join(map(str, case["tids"])) or "none", case["tail"])
+
+    def inputs(self, case):
+        d = {}
+        for i, n in enumerate(case["tids"]):
+            d.update(field_inputs(D.REPORT_PRIORITY_DESCRIPTOR_HEAD, "d%d." % i, fixed={"adlen": n}))
+            d["d%d.tid" % i] = Bytes(n, mutable=False)
+        return self.tail_input(case, d)
+
+    def build(self, case, a):
+        body, items = [], []
+        for i, n in enumerate(case["tids"]):
+            fv = field_values(D.REPORT_PRIORITY_DESCRIPTOR_HEAD, a, "d%d." % i, fixed={"adlen": n})
+            body.append(D.REPORT_PRIORITY_DESCRIPTOR_HEAD.encode(fv) + list(a["d%d.tid" % i]))
+            items.append(dict(fv, transport_id=a["d%d.tid" % i]))
+        cells = D.encode_list(4, D.N(0, 4), 4, body)
+        return cells, {"priority_descriptors": items}
+
+
+UNITS.append(register(ReportPriorityDecode()))
+
+
+class ModeSenseDecode(ListDecode):
+    """mode parameter list: header(6|10) + optional block descriptors + mode pages up to MODE DATA LENGTH"""
+
+    bound_note = "0..2 mode pages of every page format the library names, with and without an 8-byte block descriptor; all field values symbolic"
+
+    def __init__(self, ten):
+        self.ten = ten
+        self.name = "decode/ModeSense%d" % (10 if ten else 6)
+        self.hdr = D.MODE_HEADER_10 if ten else D.MODE_HEADER_6
+
+    def parser(self):
+        if self.ten:
+            return cls_of("scsi_cdb_modesense10", "ModeSense10").unmarshall_datain
+        return cls_of("scsi_cdb_modesense6", "ModeSense6").unmarshall_datain
+
+    def cases(self, tier):
+        keys = sorted(D.MODE_PAGES, key=lambda k: (k[0], k[1] or 0))
+        out = []
+        for k in keys:
+            for bdl in (0, 8):
+                out.append({"pages": [list(k)], "bdl": bdl, "tail": "none"})
+            out.append({"pages": [list(k)], "bdl": 0, "tail": "unused-buffer-space"})
+        out.append({"pages": [], "bdl": 0, "tail": "none"})
+        out.append({"pages": [], "bdl": 0, "tail": "unused-buffer-space"})
+        out.append({"pages": [list(keys[0]), list(keys[2])], "bdl": 0, "tail": "none"})
+        out.append({"pages": [list(keys[1]), list(keys[0])], "bdl": 8, "tail": "unused-buffer-space"})
+        return out
+
+    def case_id(self, case):
+        return "pages=%d:%s,bdl=%d,tail=%s" % (len(case["pages"]), "+".join("%02X%s" % (p, "" if s is None else ".%02X" % s) for p, s in case["pages"]) or "-", case["bdl"], case["tail"])
+
+    def _fixed(self, key):
+        p, s = key
+        f = {"page_code": p, "spf": 0 if s is None else 1}
+        if s is not None:
+            f["sub_page_code"] = s
+        return f
+
+    def inputs(self, case):
+        d = field_inputs(self.hdr, "h.")
+        for i, (p, s) in enumerate(case["pages"]):
+            d.update(field_inputs(D.MODE_PAGES[(p, s)], "p%d." % i, fixed=self._fixed((p, s))))
+        if case["bdl"]:
+            d["blockdesc"] = Bytes(case["bdl"], mutable=False)
+        return self.tail_input(case, d)
+
+    def build(self, case, a):
+        hv = field_values(self.hdr, a, "h.")
+        cells = self.hdr.encode(hv)
+        if case["bdl"]:
+            cells += list(a.blockdesc)
+        pages = []
+        for i, (p, s) in enumerate(case["pages"]):
+            fmt = D.MODE_PAGES[(p, s)]
+            pv = field_values(fmt, a, "p%d." % i, fixed=self._fixed((p, s)))
+            cells += fmt.encode(pv)
+            pages.append(pv)
+        if self.ten:
+            D.put_be(cells, 0, 2, len(cells) - 2)
+            D.put_be(cells, 6, 2, case["bdl"])
+        else:
+            D.put_be(cells, 0, 1, len(cells) - 1)
+            D.put_be(cells, 3, 1, case["bdl"])
+        return cells, dict(hv, mode_pages=pages)
+
+
+UNITS.append(register(ModeSenseDecode(False)))
+UNITS.append(register(ModeSenseDecode(True)))
+
+
+# ------------------------------------------------------------------------------------------------ VPD pages with lists
+
+
+def _vpd_header(a, page_code, total_len):
+    cells = [0, 0, 0, 0]
+    cells[0] = (a.peripheral_qualifier << 5) | a.peripheral_device_type
+    cells[1] = page_code
+    return cells
+
+
+class VpdListDecode(ListDecode):
+    def parser(self):
+        return cls_of("scsi_cdb_inquiry", "Inquiry").unmarshall_datain
+
+    def kwargs(self, case):
+        return {"evpd": 1}
+
+    def hdr_inputs(self):
+        return {"peripheral_qualifier": U(3), "peripheral_device_type": U(5)}
+
+    def finish(self, a, page_code, body):
+        cells = _vpd_header(a, page_code, 0) + list(body)
+        D.put_be(cells, 2, 2, len(cells) - 4)
+        exp = {"peripheral_qualifier": a.peripheral_qualifier, "peripheral_device_type": a.peripheral_device_type, "page_code": page_code}
+        return cells, exp
+
+
+class VpdSupportedPages(VpdListDecode):
+    name = "decode/Inquiry:vpd-00"
+    bound_note = "0..3 (quick) / 0..8 supported page codes; values symbolic"
+
+    def inputs(self, case):
+        d = self.hdr_inputs()
+        for i in range(case["k"]):
+            d["page%d" % i] = U(8)
+        return self.tail_input(case, d)
+
+    def build(self, case, a):
+        pages = [a["page%d" % i] for i in range(case["k"])]
+        cells, exp = self.finish(a, 0x00, pages)
+        exp["vpd_pages"] = pages
+        return cells, exp
+
+
+class VpdSerial(VpdListDecode):
+    name = "decode/Inquiry:vpd-80"
+    bound_note = "serial numbers of 0, 1, 8, 20 bytes; contents symbolic"
+
+    def counts(self, tier):
+        return (0, 1, 8, 20)
+
+    def inputs(self, case):
+        d = self.hdr_inputs()
+        d["serial"] = Bytes(case["k"], mutable=False)
+        return self.tail_input(case, d)
+
+    def build(self, case, a):
+        cells, exp = self.finish(a, 0x80, list(a.serial))
+        exp["unit_serial_number"] = a.serial
+        return cells, exp
+
+
+class VpdDeviceIdentification(VpdListDecode):
+    name = "decode/Inquiry:vpd-83"
+    bound_note = "1..2 designation descriptors of every designator kind and NAA format (each kind alone, and pairs); all field values symbolic"
+
+    def cases(self, tier):
+        kinds = []
+        for k, (t, mk, lens) in D.DESIGNATORS.items():
+            for n in lens:
+                kinds.append((k, n))
+        out = [{"descs": [], "tail": "none"}]
+        for k, n in kinds:
+            out.append({"descs": [[k, n]], "tail": "none"})
+        out.append({"descs": [["naa-6", 16], ["t10-vendor-id", 12]], "tail": "unused-buffer-space"})
+        out.append({"descs": [["relative-target-port", 4], ["target-port-group", 4], ["scsi-name-string", 12]], "tail": "none"})
+        if tier != "quick":
+            for (k1, n1) in kinds:
+                out.append({"descs": [[k1, n1], ["naa-5", 8]], "tail": "unused-buffer-space"})
+        return out
+
+    def case_id(self, case):
+        return "descs=%s,tail=%s" % ("+".join("%s/%d" % (k, n) for k, n in case["descs"]) or "none", case["tail"])
+
+    def _fmt(self, kind, n):
+        t, mk, lens = D.DESIGNATORS[kind]
+        return t, mk(n)
+
+    def inputs(self, case):
+        d = self.hdr_inputs()
+        for i, (kind, n) in enumerate(case["descs"]):
+            t, fmt = self._fmt(kind, n)
+            d.update(field_inputs(D.DESIGNATION_HEADER, "d%d." % i, fixed={"designator_type": t, "designator_length": fmt.size}))
+            fixed = {"naa": D.NAA_FIXED[kind]} if kind in D.NAA_FIXED else {}
+            d.update(field_inputs(fmt, "d%d.v." % i, fixed=fixed))
+        return self.tail_input(case, d)
+
+    def build(self, case, a):
+        body, descs = [], []
+        for i, (kind, n) in enumerate(case["descs"]):
+            t, fmt = self._fmt(kind, n)
+            hv = field_values(D.DESIGNATION_HEADER, a, "d%d." % i, fixed={"designator_type": t, "designator_length": fmt.size})
+            fixed = {"naa": D.NAA_FIXED[kind]} if kind in D.NAA_FIXED else {}
+            dv = field_values(fmt, a, "d%d.v." % i, fixed=fixed)
+            body += D.DESIGNATION_HEADER.encode(hv) + fmt.encode(dv)
+            e = dict(hv, designator=dv)
+            # PROTOCOL IDENTIFIER is meaningful only if PIV = 1 and ASSOCIATION is 1 or 2; the library omits it otherwise
+            e["__protocol_identifier_valid"] = V.band(hv["piv"] == 1, V.bor(hv["association"] == 1, hv["association"] == 2))
+            descs.append(e)
+        cells, exp = self.finish(a, 0x83, body)
+        exp["designator_descriptors"] = descs
+        return cells, exp
+
+    def ensures(self, case, a, out, X):
+        if out.kind != "return":
+            yield "C04", "decodes-without-error (raised %s)" % type(out.exc).__name__, False
+            return
+        res, exp = out.value, self.expected
+        for k in ("peripheral_qualifier", "peripheral_device_type", "page_code"):
+            yield "C04", "decoded/%s" % k, same(lookup(res, k), exp[k])
+        got = res.get("designator_descriptors") if isinstance(res, dict) else None
+        yield "C04", "decoded/designator_descriptors/len", isinstance(got, list) and len(got) == len(exp["designator_descriptors"])
+        if not isinstance(got, list) or len(got) != len(exp["designator_descriptors"]):
+            return
+        for i, (g, e) in enumerate(zip(got, exp["designator_descriptors"])):
+            valid = e.pop("__protocol_identifier_valid")
+            for k, v in e.items():
+                if k == "protocol_identifier":
+                    yield "C04", "decoded/designator_descriptors[%d]/protocol_identifier-when-valid" % i, V.bor(V.bnot(valid), same(lookup(g, k), v))
+                    yield "C04", "decoded/designator_descriptors[%d]/protocol_identifier-absent-when-not-valid" % i, V.bor(valid, "protocol_identifier" not in g)
+                elif k == "designator":
+                    for path, cond in V.deep_eq(g.get("designator"), v):
+                        yield "C04", "decoded/designator_descriptors[%d]/designator%s" % (i, path), cond
+                else:
+                    yield "C04", "decoded/designator_descriptors[%d]/%s" % (i, k), same(lookup(g, k), v)
+
+
+class VpdAtaInformation(FixedDecode):
+    """ATA Information VPD page: the identification strings and the position of the IDENTIFY data"""
+
+    def __init__(self):
+        FixedDecode.__init__(self, "Inquiry:vpd-89", lambda: cls_of("scsi_cdb_inquiry", "Inquiry").unmarshall_datain, D.ATA_INFORMATION,
+                             kwargs={"evpd": 1}, fixed={"page_code": 0x89}, drop=("signature.raw", "command_code"))
+        self.unchecked = ("ATA device signature internals", "IDENTIFY general/specific configuration words", "COMMAND CODE (not exposed)")
+
+
+for _u in (VpdSupportedPages(), VpdSerial(), VpdDeviceIdentification(), VpdAtaInformation()):
+    UNITS.append(register(_u))
